@@ -582,6 +582,23 @@ def node_release_rule(run, prog):
                     loose += 1
                 elif k in (0, 1):
                     covered.add(k)
+            # a file-local helper that is handed the node and releases key and value on every path through it
+            for b2, i2, n2 in f.calls():
+                g = prog.func(n2.get("fn")) if n2.get("fn") else None
+                if g is None or not g.static or g.file != f.file or g.name == "free_node":
+                    continue
+                if not ((b2.id == b.id and i2 < i) or (b2.id != b.id and f.dominates(b2.id, b.id))):
+                    continue
+                for ai, a_ in enumerate(n2.get("args", [])):
+                    if strip(a_).get("k") == "Ref" and strip(a_).get("id") == xid:
+                        pid_ = [p_.get("id") for p_ in g.params or [] if p_.get("pi") == ai]
+                        if not pid_:
+                            continue
+                        for k in (0, 1):
+                            blocks = {b3.id for b3, i3, n3 in g.calls() if n3.get("fn") in ("free_svalue", "free_object") and n3.get("args") and
+                                      (slot_of(n3["args"][0], pid_[0]) == k or (n3.get("fn") == "free_object" and k == 0 and mentions_values(n3["args"][0], pid_[0])))}
+                            if blocks and g.reach_avoiding([g.entry], lambda blk: blk.id == g.exit, avoid_blocks=blocks) is None:
+                                covered.add(k)
             missing = [k for k in (0, 1) if k not in covered]
             ok = len(missing) <= loose
             why = "key and value of the node are released before free_node() at line %s" % n.get("l")
